@@ -20,22 +20,10 @@ def _root_.Shroud.Gen.Capsule.Row.ok (r : Row) : Bool :=
     (r.frees.contains a && (!r.gotoFail || r.fails.contains a)) ||
     ((a == 3 || a == 4) && r.handover != 0 && (!r.gotoFail || r.fails.contains a))
 
-/-- `py_struct_*_out_class` / `py_struct_&_out_class` (known finding `py-struct-out-class-leak`) -/
-def knownLeak (r : Row) : Bool :=
-  r.name == [112, 121, 95, 115, 116, 114, 117, 99, 116, 95, 42, 95, 111, 117, 116, 95, 99, 108, 97, 115, 115] ||
-  r.name == [112, 121, 95, 115, 116, 114, 117, 99, 116, 95, 38, 95, 111, 117, 116, 95, 99, 108, 97, 115, 115]
-
-/-- **(5)** every effective statement block that allocates a temporary releases it or hands it to
-    a capsule with a registered destructor - except the two Python struct-as-class `intent(out)`
-    blocks named by `knownLeak` -/
-theorem temporaries_released_or_handed_over : ∀ r ∈ rows, knownLeak r = true ∨ r.ok = true := by
-  decide +kernel
-
-/-- the statement without the exception is false on the current tables: the struct allocated by
-    `py_struct_*_out_class` is given to `PP_<T>_to_Object_idtor(ptr, 0)` (capsule_order is the
-    library default "0": `allocate_local_var` is commented out, the `*_dealloc_capsule` fields are
-    read by no code) and is never freed -/
-theorem struct_out_class_leaks : ¬ ∀ r ∈ rows, r.ok = true := by
+/-- **(5)** every effective statement block that allocates a temporary releases it (also on its
+    `fail:` path) or hands it to a capsule with a registered destructor.  (Before /repo commit
+    d32c736 the two Python struct-as-class `intent(out)` blocks violated this: index 0.) -/
+theorem temporaries_released_or_handed_over : ∀ r ∈ rows, r.ok = true := by
   decide +kernel
 
 /-- non-vacuity: the regenerated table has allocating blocks of every alloc code -/
